@@ -228,6 +228,28 @@ func c05Gen(tier string, seed int64) []core.Case {
 			k++
 		}
 	}
+	// equivocation over time: after an honest party has moved on to a later round, the deviator sends it an earlier-round
+	// message once more with one field altered (stores are keyed by sender and type, so the copy overwrites the original)
+	for _, sc := range faultSessions(tier) {
+		seenType := map[string]bool{}
+		for _, fi := range staticFields[sc.proto] {
+			if seenType[fi.Type] && tier != "thorough" {
+				continue
+			}
+			if sp := sim.SpecOf(sc.proto, fi.Type); sp == nil || sp.Round >= sim.FinalRound[sc.proto]-1 {
+				continue // messages of the last message round: no later round in which a copy could arrive
+			}
+			seenType[fi.Type] = true
+			ix := ""
+			if fi.Repeated {
+				ix = "first"
+			}
+			f := faultSpec{fi.Type, fi.Field, ix, "+1", poss[k%3], false, ""}
+			id := fmt.Sprintf("%s/late-altered-resend/%s", sc.proto, f.String())
+			cs = append(cs, core.Case{ID: id, Class: id, Kind: "late-resend", P: f.P(sc.P()), Cost: sc.cost})
+			k++
+		}
+	}
 	{
 		// the same for a signer's nonce commitment R_j in EdDSA signing (all three holders of a (3,1) key sign)
 		sc := sessCfg{"eddsa-signing", 3, 1, []int{0, 1, 2}, 0, 0, "seeded", 0.5}
@@ -322,6 +344,9 @@ func c05Run(c core.Case, env *core.Env) core.Result {
 	case "weak":
 		fr, err = runWeakParams(s, c.P.Str("fpos"), c.P.Str("weak"))
 		f = faultSpec{Type: "(pre-parameters)", Field: c.P.Str("weak"), How: "weak-params", Pos: c.P.Str("fpos")}
+	case "late-resend":
+		fr, err = runLateResend(s, f)
+		f.How = "late-resend"
 	case "torsion-signer":
 		fr, err = runTorsionSigner(s, c.P.Bool("honestproof"))
 		f = faultSpec{Type: "(crafted nonce point)", Field: "*", How: "torsion-dealer", Pos: "mid"}
@@ -385,6 +410,9 @@ func c05Oracle(r *core.Result, fr *faultRun, f faultSpec) {
 	r.Count("faults_applied", 1)
 	// parameter sizes and duplicates are validated by plain comparisons, not by a commitment, share check or proof
 	covered := !uncoveredFields[s.Proto+"/"+f.Type+"."+f.Field] && f.How != "weak-params"
+	if f.How == "late-resend" {
+		covered = false // an honest party may ignore a message for a round it has left; what it must not do is produce a bad output or blame a peer
+	}
 	if f.How == "wrong-secret" {
 		// a signer's share is tied to its public share by Bob's proof "with check" in ECDSA signing; EdDSA signing and
 		// the re-sharing dealers have no per-party proof of the share (the failure shows in the final check only)
@@ -946,6 +974,63 @@ func runTorsionSigner(s *session, honestProof bool) (*faultRun, error) {
 		}
 		return m.Wire, m.Bcast, m.From.PID, false
 	}
+	w.Run(sim.StartsThen(sim.FIFO), nil)
+	return fr, nil
+}
+
+// runLateResend: the run is honest except that, every time an honest party changes round, the deviator's messages of type
+// f.Type that this party received earlier are handed to it once more with f.Field altered (+1).
+func runLateResend(s *session, f faultSpec) (*faultRun, error) {
+	w, in, err := s.make(s.env.Seed + 41)
+	if err != nil {
+		return nil, err
+	}
+	sp := sim.SpecOf(s.Proto, f.Type)
+	if sp == nil {
+		return nil, fmt.Errorf("no message type %s in %s", f.Type, s.Proto)
+	}
+	fr := &faultRun{w: w, in: in, s: s, f: f}
+	fr.dev = pickDeviator(w, sp.From, f.Pos)
+	fr.dev.Deviator = true
+	type rec struct {
+		wire []byte
+		bc   bool
+	}
+	got := map[*sim.Node][]rec{}
+	last := map[*sim.Node]int{}
+	w.OnDelivered = append(w.OnDelivered, func(ev *sim.Event, ok bool, err *tss.Error) {
+		if ev.Tag == "" && ev.Msg != nil && ev.Msg.From == fr.dev && ev.Msg.Short == f.Type {
+			got[ev.Node] = append(got[ev.Node], rec{ev.Wire, ev.Bcast})
+		}
+	})
+	w.AfterStep = append(w.AfterStep, func(ev *sim.Event) {
+		n := ev.Node
+		if n == nil || n == fr.dev || !n.Started || len(n.Ended) > 0 {
+			return
+		}
+		cur := roundOf(n)
+		if cur == last[n] {
+			return
+		}
+		last[n] = cur
+		if cur <= sp.Round {
+			return
+		}
+		for _, m := range got[n] {
+			vals, err := sim.GetField(m.wire, f.Field)
+			if err != nil || len(vals) == 0 {
+				continue
+			}
+			nv := append([][]byte{}, vals...)
+			nv[0] = new(big.Int).Add(new(big.Int).SetBytes(nv[0]), big.NewInt(1)).Bytes()
+			alt, err := sim.SetField(m.wire, f.Field, nv)
+			if err != nil {
+				continue
+			}
+			fr.applied++
+			w.Inject(&sim.Event{Kind: sim.EvDeliver, Node: n, Msg: &sim.Msg{From: fr.dev, Short: f.Type, Wire: alt, Bcast: m.bc}, Wire: alt, Bcast: m.bc, FromPID: fr.dev.PID, Tag: "late"})
+		}
+	})
 	w.Run(sim.StartsThen(sim.FIFO), nil)
 	return fr, nil
 }
